@@ -136,6 +136,11 @@ def parse_info_positions(data):
 PARSE_CODES = [0x00, 0x10, 0x20, 0x30, 0xC8, 0xE8, 0xCC, 0xEC]
 
 
+def common_corpus():
+    import common
+    return common.corpus_streams()
+
+
 def byte_mutation(data, rng):
     b = bytearray(data)
     kind = rng.choice(["flip", "flip", "subst", "insert", "delete", "truncate", "random-tail", "parse-code", "offset",
@@ -263,6 +268,13 @@ def run(ctx):
             if rng.random() < 0.5:
                 data0 = b"BBCD" + data0
             data, labs = data0, ["random"]
+        elif n % 25 in (4, 5) and common_corpus():
+            # fixed conformant streams whose pictures use differing transform parameters within one sequence
+            data = rng.choice(common_corpus())
+            labs = ["corpus"]
+            if n % 25 == 5:
+                data, lab2 = byte_mutation(data, rng)
+                labs.append(lab2)
         elif n % 25 in (1, 2, 3):
             # hand-packed tiny pictures/fragments with degenerate slice and transform parameters (zero slice
             # budgets, zero counts, invalid indices), sometimes mutated further
